@@ -287,7 +287,19 @@ def conditions(tier, seed):
             out.append(make_json(_safe(universe_shape(s.name, tier)), cfg, to))
         if _nleaves(s) <= (2 if tier == "quick" else 3) and ("Optional" in s.name or "None" in s.name or "Union" in s.name):
             out.append(make_json_seq(_safe(universe_shape(s.name, tier)), to))
+    out.append(make_json(_small_team(), "stdlib", to))  # a revisited container annotation, nested two levels
     return out
+
+
+def _small_team():
+    from vlib.fixtures import models as M
+    from vlib.shapes import Int, Seq, Struct
+
+    def person(d):
+        peers = Seq(list[M.Person], list, universe.Lazy(lambda: person(max(d - 1, 0))), 1 if d > 0 else 0, "list[Person]")
+        return Struct(M.Person, {"age": Int(0, 1), "peers": peers}, name="Person")
+
+    return Struct(M.Team, {"members": Seq(list[M.Person], list, person(2), 1, "list[Person]")}, name="Team(small)")
 
 
 def universe_shape(name, tier):
